@@ -9,7 +9,7 @@ import c2coq
 
 HEADER = ('(* GENERATED from %s by /verif/translate on every run -- do not edit *)\n'
           'From Coq Require Import ZArith List.\nFrom FQE Require Import GenBase.\n'
-          'Import ListNotations.\nOpen Scope Z_scope.\n\n')
+          'Import ListNotations.\nLocal Open Scope Z_scope.\n\n')
 
 
 def _write(path, text):
